@@ -73,6 +73,19 @@ pub fn structures_cfg(uni: &Universe, k: usize, kinds: Vec<&'static str>, tag_me
     cfg
 }
 
+/// One-edge structures (and the bare skeleton) + up to two deviations restricted to variable filters
+/// and variable reuse: one variable used on two vertices / in two operators, in either order.
+pub fn var_reuse_cfg(uni: &Universe) -> CorpusCfg {
+    let sm = &uni.world.schema;
+    let cfg_e = GenCfg { allow: Some(vec!["E"]), e_names: Some(vec!["next", "one"]), e_contents: vec![0], recurse_depths: vec![2], naming_devs: false, ..Default::default() };
+    let mut seeds: Vec<Query> = vec![qgen::skeleton()];
+    seeds.extend(qgen::enumerate(sm, &[qgen::skeleton()], 1, &cfg_e).into_iter().skip(1).flatten());
+    let mut cfg = CorpusCfg::new(2);
+    cfg.seeds = seeds;
+    cfg.gen = GenCfg { allow: Some(vec!["Pf", "Pv"]), wide_filters: true, naming_devs: false, ..Default::default() };
+    cfg
+}
+
 pub struct CompiledQuery {
     pub q: Query,
     pub text: String,
